@@ -48,17 +48,17 @@ OpsViol(r) ==
      \cup (IF same /\ (\E i \in 1..Len(ops) : ~IsEqual(ops[i])) THEN {"identical"} ELSE {})
      \cup (IF N = 0 /\ M = 0 /\ Len(ops) > 0 THEN {"identical"} ELSE {})
      \cup (IF r.ratio_in01 /\ (r.ratio_one <=> same) THEN {} ELSE {"ratio"})
-     \cup (IF valid /\ lcsOk /\ nodl /\ r.alg \in {"myers", "lcs"}
+     \cup (IF lcsOk /\ nodl /\ r.alg \in {"myers", "lcs"}
               /\ (Cost(ops) # N + M - 2 * L \/ EqualTotal(ops) # L)
            THEN {"minimal"} ELSE {})
-     \cup (IF valid /\ lcsOk /\ nodl /\ r.alg \in {"myers", "lcs"} /\ N + M > 0
+     \cup (IF lcsOk /\ nodl /\ r.alg \in {"myers", "lcs"} /\ N + M > 0
               /\ Abs(r.ratio_u * (N + M) - 2000000 * L) > N + M
            THEN {"ratio_formula"} ELSE {})
      \cup (IF NoEmpty(ops) /\ Alternate(ops) /\ (valid => Latest(r.old, r.new, ops))
            THEN {} ELSE {"normal"})
      \cup (IF ~PositionsExact(r.os, r.ns, ops) THEN {"exact"} ELSE {})
      \cup (IF r.rep_panic \/ ~PositionsExact(r.os, r.ns, r.ops_rep) THEN {"exact_rep"} ELSE {})
-     \cup (IF valid /\ anchOk /\ nodl /\ r.alg = "patience"
+     \cup (IF anchOk /\ nodl /\ r.alg = "patience"
               /\ CoveredUnique(r.old, r.new, r.os, r.oe, r.ns, r.ne, ops) < AnchorOptimum(oldR, newR)
            THEN {"anchors"} ELSE {})
 
